@@ -18,9 +18,10 @@
       symbols pushed into the source regions ([C06_accepts_exactly_statistics]);
     - raw mode (before any merge, after clear) round-trips everything.
     The one hypothesis: code lengths of at most 57 bits ([mergeable] = [bound]), the limit of the
-    64-bit encoder register that the crate's own comment concedes (a Huffman code that deep needs
-    more than 10^11 pushed symbols). *)
-From FC Require Import Base.Res Region.Region Huffman.Huffman Huffman.HuffOpt Huffman.HuffTree Huffman.Bits Huffman.BitIter Huffman.EncoderOk Huffman.DecoderOk Huffman.RoundTrip Huffman.TableIns Huffman.TableOk Huffman.HuffRegion.
+    64-bit encoder register that the crate's own comment concedes -- and it is DISCHARGED for every
+    container whose source regions counted fewer than 1 548 008 755 920 symbols in total
+    ([C06_mergeable_from_statistics]: a greedily built tree of height h weighs at least Fib(h+2)). *)
+From FC Require Import Base.Res Region.Region Huffman.Huffman Huffman.HuffOpt Huffman.HuffTree Huffman.Bits Huffman.BitIter Huffman.EncoderOk Huffman.DecoderOk Huffman.RoundTrip Huffman.TableIns Huffman.TableOk Huffman.HuffRegion Huffman.HuffDepth Huffman.HuffBound.
 From FC Require Region.History.
 From Coq Require Import ZArith Permutation Sorted Lia.
 
@@ -165,4 +166,28 @@ Proof.
   - constructor; [|constructor]. split; [|exact I]. vm_compute. repeat constructor.
   - vm_compute. repeat constructor.
   - vm_compute. repeat constructor; discriminate.
+Qed.
+
+(** The depth of the code is bounded by the size of the statistics: for counts >= 1 with a total below
+    G(58) = Fib(60), every code length is at most 57 (the tree create_from builds has height h with
+    G(h) <= total, because in a greedily merged tree every node outweighs each child of its sibling). *)
+Theorem C06_short_codes_from_total : forall counts, Forall (fun sc : sym * Z => (1 <= snd sc)%Z) counts ->
+  total_count counts < G 58 -> Forall (fun ls : nat * sym => fst ls <= 57) (levels_of counts).
+Proof. exact small_total_short_codes. Qed.
+
+(** ... hence the one hypothesis of the contract holds for every merge of regions that counted fewer
+    than 1 548 008 755 920 symbols in total ... *)
+Theorem C06_mergeable_from_statistics : forall l, Forall inv l ->
+  (N.of_nat (total_count (merged_counts l)) < 1548008755920)%N -> mergeable l.
+Proof. exact small_stats_mergeable. Qed.
+
+(** ... and C06 holds for them WITHOUT any hypothesis about code lengths: any history of pushes of covered
+    sequences and clears on the merged container runs without panic and every issued index reads back
+    exactly the pushed symbols, at every bit alignment. *)
+Theorem C06_history_unconditional : forall l (ops : list (History.op huffman_region)),
+  Forall inv l -> (N.of_nat (total_count (merged_counts l)) < 1548008755920)%N ->
+  History.covered ops (merge huffman_region l) ->
+  exists s' log' tr', History.run ops (merge huffman_region l) [] [] = Ok (s', log', tr') /\ inv s' /\ History.log_ok s' log'.
+Proof.
+  intros l ops Hl Htot Hc. apply C06_merged_history; [exact Hl|apply small_stats_mergeable; assumption|exact Hc].
 Qed.
